@@ -28,11 +28,10 @@ CLAIMED = {
  "C06": ("other", "Range 0 <= B <= 2/(2-v/u) and u proved per symbolic pair; mvrs_to_data filter, order and u proved for lists of <= 3 symbolic "
          "(MVR,CVR) pairs (all presence patterns); set_p_values proved to install u before each test call for bounded contest/assertion shapes; "
          "IRV assorter values in {0,1/2,1} (C14 scripts).", "list length and contest/assertion shapes bounded", "§4.C06"),
- "C07": ("other", "Bounded stand-in: every style assignment of <= 4-5 cards over 2 contests, sample-number orders, every admissible size vector, against "
-         "the property's closed form (selection, order, thresholds, flags); mvrs_to_data per-contest filter proved for bounded lists (C06 scripts).",
-         "bounded only", "§4.C07"),
- "C08": ("other", "Scoring clauses (phantom MVR never increases B; phantom CVR scored 1/2) proved per symbolic pair; make_phantoms accounting: bounded "
-         "stand-in over all style assignments of <= 3-4 CVRs, bounds and style flags.", "accounting bounded", "§4.C08"),
+ "C07": ('other', 'consistent_sampling executed symbolically for 1-3 cards x 2 contests with symbolic styles, pairwise distinct symbolic sample numbers and symbolic sample sizes: selection, order, thresholds and flags proved equal to the closed form for that structure; exhaustive native stand-in up to 4-5 cards; per-contest data filter (mvrs_to_data) proved for <= 3 pairs; assign_sample_nums bounded.',
+         'number of cards / contests bounded; sample numbers reals', '§4.C07'),
+ "C08": ('other', 'Scoring clauses (phantom MVR never increases B; phantom CVR scored 1/2) proved per symbolic pair; make_phantoms accounting proved for <= 2 symbolic CVRs x 2 contests with symbolic styles and concrete shortfalls 0..2, plus exhaustive native stand-in (<= 3-4 CVRs).',
+         'accounting structure-bounded', '§4.C08'),
  "C09": ("other", "set_p_values / summarize_status / reset_p_values proved for every symbolic p-value, risk limit and proved-flag over bounded shapes "
          "(1-3 contests x 1-2 assertions).", "shapes bounded", "§4.C09"),
  "C10": ("other", "Bounded stand-in: two rounds with every pair of size vectors n <= n' on <= 4-5 cards, redraw and continue variants; p-value "
@@ -54,15 +53,14 @@ CLAIMED = {
          "re-applied tallies: RAIRE bounded stand-in (C04).", "candidate count fixed at 4 in the proved part; readers bounded", "§4.C14"),
  "C15": ("other", "Bounded stand-in shared with C04: largest difficulty of the returned set equals max over alternative orders of the cheapest true "
          "assertion contradicting it (brute force), both difficulty functions, with/without order hint.", "bounded only", "§4.C15"),
- "C16": ("other", "NonnegMean.sample_size deterministic branch proved (tiling, first crossing, else N) for symbolic pilot length and N; data "
-         "construction of Assertion.find_sample_size, interleave counts, contest maximum, prefix-crossing simulations: bounded stand-ins. Known finding K7.",
-         "test abstracted by its C11 interface in the proved part", "§4.C16"),
- "C17": ("other", "Bounded stand-in: all manifests of 1-3(4) batches with sizes 0..3, every valid sample number, both vendors, prep_manifest bounds, "
-         "CVR-driven look-up.", "bounded only; pandas trusted", "§4.C17"),
- "C18": ("other", "Bounded stand-in: all record lists of <= 3 records over 2 ids with every flag / tally-pool combination (incl. falsy labels) against a "
-         "fold oracle; RAIRE reader: small files.", "bounded only", "§4.C18"),
- "C19": ("other", "Bounded stand-in: generated exports (both layouts, mark multisets in every order, Modified before/after Original, obfuscated ids) x 16 "
-         "option settings against an oracle written from the property text.", "bounded (sampled) only; json / re trusted", "§4.C19"),
+ "C16": ('other', "Proved for symbolic sizes: NonnegMean.sample_size deterministic branch (tiling, first crossing, else N); Assertion.interleave_values by a loop invariant (exact counts, n_big >= 1); Assertion.find_sample_size comparison data (x[i] by position for symbolic N and steps, delegation with the contest's risk limit). Bounded stand-ins: polling data, contest / audit maxima, prefix-crossing simulations. Known finding K7.",
+         'test abstracted by its C11 interface; int(1/rate) handled for rates of the form 1/step', '§4.C16'),
+ "C17": ('other', "Proved for a SYMBOLIC number of batches (pandas abstracted to columns, np.searchsorted by its contract, cumulative counts as ghost sums): one sample number maps to a batch and position with position within the batch's size and s = cards before + position (Dominion 1-based/left, Hart 0-based/right), phantom MVR iff phantom batch; prep_manifest refuses / appends exactly as stated. Bounded stand-in: several samples at once, injectivity, CVR-driven look-up.",
+         'pandas / numpy contracts trusted; one sample per proved call', '§4.C17'),
+ "C18": ('other', "merge_cvrs executed symbolically for every id pattern of <= 3 records with symbolic flags, contest presence and all tally-pool label combinations (incl. falsy labels): one record per id in first-appearance order, union of contests with the later record's contents, phantom/all, pool/any as a boolean, tally-pool rule and ValueError exactly on conflict. Exhaustive native stand-in (<= 3-4 records); RAIRE reader: bounded.",
+         'number of records bounded', '§4.C18'),
+ "C19": ('other', "Dominion.read_cvrs executed symbolically on one session with two contests and up to 3 marks per contest (symbolic ranks and IsVote, both layouts, Modified absent / before / after Original, use_current and enforce_rules symbolic): recorded values equal the property's minimum-positive-rank rule and adjudicated data replace original ones for the contests they cover; sessions / groups / pooling for 2 sessions with symbolic groups and options. Sampled native stand-in over generated exports.",
+         'JSON structure bounded; json / re / open abstracted', '§4.C19'),
  "C20": ("other", "Bounded stand-in: candidate sets of size 2-4(5), every alternative winner, single-assertion sets exhaustively and random assertion "
          "sets, against brute force over all elimination orders; tags, marker and parseAssertions translation checked.", "bounded only", "§4.C20"),
 }
@@ -72,7 +70,7 @@ TECH_MIX = ("contract-based deductive verification (pyvc VCs from /repo's AST, z
             "by bounded stand-ins (structure-bounded symbolic obligations and exhaustive small-scope run-time contract checks), labelled bounded")
 TECH_BOUNDED = ("bounded stand-in only (exhaustive small-scope run-time contract checking of the real function against an oracle written from the "
                 "property text); the contract is stated but no deductive proof of this function is within reach of the VC generator yet")
-ONLY_BOUNDED = {"C04", "C15", "C07", "C10", "C17", "C18", "C19", "C20"}
+ONLY_BOUNDED = {"C04", "C15", "C20"}
 NA_REASON = "check not built yet (construction in progress; planned as in DESIGN.md §4)"
 
 def main():
